@@ -11,6 +11,7 @@ import (
 	"encoding/binary"
 	"encoding/hex"
 	"github.com/golang/snappy"
+	pprofile "github.com/google/pprof/profile"
 	"github.com/metrico/qryn/writer/utils/proto/logproto"
 	"github.com/metrico/qryn/writer/utils/proto/prompb"
 	otlpCommon "go.opentelemetry.io/proto/otlp/common/v1"
@@ -30,6 +31,7 @@ type ExpRow struct {
 	Line               string
 	Labels             map[string]string // expected stored label set (nil: not predicted for this protocol)
 	LabelKey           string
+	Profile            bool   // a pprof profile: one profiles_input row identified by its service name
 	Span               bool   // a trace span: one tempo_traces row + tag-index rows
 	TraceID, SpanID    string // raw bytes
 	DurNs              int64
@@ -123,6 +125,19 @@ func Mutate(w *Wire, recipe string, n int) {
 			"/v1/logs", "/api/v1/prom/remote/write", "/tempo/spans", "/api/v2/spans", "/v1/traces", "/ingest?from=1&until=2&name=app{a=b}", "/ingest?from=x&until=&name={", "/ingest?name=app{&from=1&until=2",
 			"/_bulk", "/idx/_doc", "/idx/_create/1", "/idx/_bulk", "/ingest?from=18446744073709551615&until=1&name=a{b=c,d}"}
 		w.Path = routes[n%len(routes)]
+	case "params":
+		// nasty query parameters on the routes that take them, with a content type that reaches the parser
+		names := []string{"app", "app{", "app{}", "{", "app{a=b}", "app{a=b,c}", "app{=}", "a{b=c}}", "", strings.Repeat("n", 3000), "app{a=b", "}{", "app%7B"}
+		nums := []string{"1", "0", "x", "", "18446744073709551615", "-1", "1e3", "99999999999999999999"}
+		switch n % 4 {
+		case 0, 1:
+			w.Path = fmt.Sprintf("/ingest?from=%s&until=%s&name=%s", nums[(n/4)%3], nums[(n/12)%len(nums)], names[(n/7)%len(names)])
+			w.ContentType = []string{"binary/octet-stream", "multipart/form-data; boundary=simboundary", "multipart/form-data"}[(n/5)%3]
+		case 2:
+			w.Path = "/influx/api/v2/write?precision=" + []string{"ns", "us", "ms", "s", "xx", "", "h"}[(n/4)%7]
+		case 3:
+			w.Path = []string{"/api/v2/logs?ddsource=", "/cf/v1/insert?ddsource=", "/idx/_doc?x=", "/%00/_bulk?"}[(n/4)%4] + names[(n/16)%len(names)]
+		}
 	case "short-id":
 		// spans with ids of the wrong length
 		w.Body = bytes.ReplaceAll(b, []byte(`"traceId":"0000`), []byte(`"traceId":"`))
@@ -460,6 +475,55 @@ func Encode(req int, op Op, nowNs int64) *Wire {
 				spans = []json.RawMessage{}
 			}
 			w.Body, _ = json.Marshal(spans)
+		}
+	case "pprof", "pprof-multipart":
+		tag := fmt.Sprintf("q%ds0e0", req)
+		x := &ExpRow{Req: req, Tag: tag, Profile: true, TsNs: (nowNs / 1e9) * 1e9}
+		w.Rows = append(w.Rows, x)
+		name := tag
+		if len(op.Streams) > 0 {
+			var kv []string
+			for _, l := range op.Streams[0].Labels {
+				if regexp.MustCompile(`^[a-z]+$`).MatchString(l[0]) && regexp.MustCompile(`^[a-z0-9]+$`).MatchString(l[1]) {
+					kv = append(kv, l[0]+"="+l[1])
+				}
+			}
+			if len(kv) > 0 {
+				name += "{" + strings.Join(kv, ",") + "}"
+			}
+		}
+		w.Path = fmt.Sprintf("/ingest?from=%d&until=%d&name=%s", nowNs/1e9, nowNs/1e9+10, name)
+		fn := &pprofile.Function{ID: 1, Name: "main.work", SystemName: "main.work", Filename: "main.go"}
+		fn2 := &pprofile.Function{ID: 2, Name: "main.main", SystemName: "main.main", Filename: "main.go"}
+		loc := &pprofile.Location{ID: 1, Address: 0x1000, Line: []pprofile.Line{{Function: fn, Line: 10}}}
+		loc2 := &pprofile.Location{ID: 2, Address: 0x2000, Line: []pprofile.Line{{Function: fn2, Line: 20}}}
+		pr := &pprofile.Profile{
+			SampleType: []*pprofile.ValueType{{Type: "samples", Unit: "count"}, {Type: "cpu", Unit: "nanoseconds"}},
+			PeriodType: &pprofile.ValueType{Type: "cpu", Unit: "nanoseconds"}, Period: 10000000,
+			Function: []*pprofile.Function{fn, fn2}, Location: []*pprofile.Location{loc, loc2},
+			TimeNanos: nowNs, DurationNanos: 1e9,
+		}
+		nsamp := 1
+		for _, s := range op.Streams {
+			nsamp += len(s.Entries)
+		}
+		for i := 0; i < nsamp; i++ {
+			pr.Sample = append(pr.Sample, &pprofile.Sample{Location: []*pprofile.Location{loc, loc2}, Value: []int64{int64(i + 1), int64(i+1) * 10000000}})
+		}
+		var pb bytes.Buffer
+		if err := pr.Write(&pb); err != nil {
+			panic(err)
+		}
+		if op.Proto == "pprof" {
+			w.ContentType = "binary/octet-stream"
+			w.Body = pb.Bytes()
+		} else {
+			w.ContentType = "multipart/form-data; boundary=simboundary"
+			var mb bytes.Buffer
+			mb.WriteString("--simboundary\r\nContent-Disposition: form-data; name=\"profile\"; filename=\"profile.pprof\"\r\nContent-Type: application/octet-stream\r\n\r\n")
+			mb.Write(pb.Bytes())
+			mb.WriteString("\r\n--simboundary--\r\n")
+			w.Body = mb.Bytes()
 		}
 	default:
 		panic("unknown proto " + op.Proto)
